@@ -268,7 +268,7 @@ func checkMain(args []string) int {
 					if u.Status != "unwind" {
 						continue
 					}
-					out := rep.run(u.Entry, u.Bounds, u.Inputs, 10*time.Second)
+					out := rep.run(u.Entry, u.Bounds, u.Inputs, 10*time.Second, u.Env)
 					if out.timedOut {
 						v := Violation{kind: "hang", msg: "loop does not terminate: " + u.Msg, hvals: u.Inputs, entry: u.Entry, bounds: u.Bounds}
 						rr.Viols = append(rr.Viols, v)
@@ -319,7 +319,7 @@ func checkMain(args []string) int {
 					}
 				}
 				if needNative && rep != nil && v.kind != "hang" {
-					out := rep.run(v.entry, v.bounds, v.hvals, 20*time.Second)
+					out := rep.run(v.entry, v.bounds, v.hvals, 20*time.Second, v.env)
 					if !out.matches(v) {
 						spurious++
 						fmt.Printf("UNCONFIRMED (native replay against the real build does not reproduce): %s %s %q native=%s\n", v.entry, v.kind, v.msg, out.summary())
@@ -347,11 +347,11 @@ func checkMain(args []string) int {
 					continue
 				}
 				validationTried++
-				out := rep.run(s.Entry, s.Bounds, s.Inputs, 20*time.Second)
+				out := rep.run(s.Entry, s.Bounds, s.Inputs, 20*time.Second, s.Env)
 				if out.agrees(s) {
 					validated++
 				} else {
-					problems = append(problems, fmt.Sprintf("%s: translator validation: native run disagrees with the symbolic path (predicted %s %v, native %s)", rs.Name, s.Status, s.Reached, out.summary()))
+					problems = append(problems, fmt.Sprintf("%s: translator validation: native run disagrees with the symbolic path (predicted %s %v, native %s) inputs=%s env=%v", rs.Name, s.Status, s.Reached, out.summary(), fmtInputs(s.Inputs), s.Env))
 				}
 			}
 		}
@@ -460,6 +460,7 @@ type ReplayFile struct {
 	Kind      string           `json:"kind"`
 	Assertion string           `json:"assertion"`
 	Inputs    []NondetVal      `json:"inputs"`
+	Env       []FSPre          `json:"fs_pre,omitempty"`
 	Model     map[string]uint64 `json:"model"`
 	Decisions [][2]uint64      `json:"decisions"`
 	Native    string           `json:"native"`
@@ -468,7 +469,7 @@ type ReplayFile struct {
 
 func writeReplay(spec *Spec, cv *confirmedViolation) string {
 	rf := ReplayFile{Property: spec.Property, Entry: cv.v.entry, Harness: spec.Harness, Bounds: cv.v.bounds, Kind: cv.v.kind,
-		Assertion: cv.v.msg, Inputs: cv.v.hvals, Model: cv.v.model, Native: cv.native, Run: cv.run}
+		Assertion: cv.v.msg, Inputs: cv.v.hvals, Env: cv.v.env, Model: cv.v.model, Native: cv.native, Run: cv.run}
 	for _, d := range cv.v.decisions {
 		b := uint64(0)
 		if d.b {
